@@ -84,6 +84,7 @@ package cipher
 // CBC-MAC absorption of data, zero-padded to whole blocks, into out: out becomes the CBC chaining
 // value over the padded data started from its old content (unbounded length, recursive spec CBC)
 //@ func (*ccm).cmac property C04
+//@   cellranges
 //@   requires c != nil && c.cipher != nil && BS(id(c.cipher)) == 16 && len(out) == 16 && !sameobj(out, data)
 //@   let K := id(c.cipher)
 //@   let T0 := CAT(ZEROARR(), 0, arr(out), offof(out), 16)
